@@ -41,6 +41,7 @@ def jobs(tier):
         J.append(Job(b, main, "2,1,0,0", p1, env))
         J.append(Job(b, "two_readers", "2,0,0,0", p1, env))
         J.append(Job(b, "merged", "2,0,0,0", p1, env))
+        J.append(Job(b, "late_register", "2,0,0,0" if q else "3,0,0,0", p1, env))      # reader registered during the previous grace period
         if b == "gp_qsbr" or (not q and b != "gp_bp"):
             J.append(Job(b, "merged", "2,0,0,0", dict(p1, upd_registered=1), env))
             J.append(Job(b, "three_callers", "1,0,0,0", dict(p1, upd_registered=1), env))
